@@ -301,6 +301,32 @@ def _reads_through(fn, new_local, loaded_roots):
     return None
 
 
+def _const_return(fn, l=0, depth=0, seen=None):
+    """can the value of local l (default: the return place) be a plain constant on some path? A tag helper that
+    returns a canonical constant word for some state (e.g. 'empty list') resets the generation on that path."""
+    seen = seen if seen is not None else set()
+    if l in seen or depth > 6:
+        return False
+    seen.add(l)
+    for loc, kind, pl in fn.defs(l):
+        if kind != "assign" or len(pl[1]) != 1:
+            continue
+        rv = pl[2]
+        if rv[0] == "use":
+            if op_const(rv[1]) is not None:
+                return True
+            p = op_place(rv[1])
+            if p and len(p) == 1 and _const_return(fn, p[0], depth + 1, seen):
+                return True
+        elif rv[0] == "cast":
+            if op_const(rv[2]) is not None:
+                return True
+            ll = op_local(rv[2])
+            if ll is not None and _const_return(fn, ll, depth + 1, seen):
+                return True
+    return False
+
+
 def _bumps_tag(fn, new_local, loaded_roots, fx=None, depth=0):
     """new value contains (something derived from the loaded value) + 1; the increment may sit in a
     crate-local helper that receives the loaded word (followed two levels deep when facts are given)"""
@@ -313,7 +339,7 @@ def _bumps_tag(fn, new_local, loaded_roots, fx=None, depth=0):
             idx = [i + 1 for i, a in enumerate(pl["a"]) if op_local(a) in fw]
             if idx:
                 cf = Fn(fx.raw(pl["f"]))
-                if _bumps_tag(cf, 0, set(idx), fx, depth + 1):
+                if _bumps_tag(cf, 0, set(idx), fx, depth + 1) and not _const_return(cf):
                     return True
         if kind == "assign" and pl[2][0] == "bin" and pl[2][1] in ("Add", "AddWithOverflow", "AddUnchecked"):
             a, b = pl[2][2], pl[2][3]
@@ -692,4 +718,57 @@ def push_relink(ctx, fn, rule="R-ABA.relink", fx=None):
                           "the pushed node's link (line %s) is written once before the compare_exchange loop (CAS at line %s): after a "
                           "failed attempt the node still points at the head of the first attempt" % (links[0][1], c["ln"]),
                           fn.file, links[0][1])
+    return n
+
+
+# ---------------------------------------------------------------- R-LOCKSPLIT
+def lock_split(ctx, fn, rule="R-LOCKSPLIT"):
+    """check-then-act across two critical sections of one lock: a value read under a guard of lock L decides a branch,
+    the guard is released, and the branch re-acquires L to write. Two threads can both see the old value and both act
+    (double initialisation). The read, the decision and the write have to sit under one guard."""
+    sites = lock_sites(fn)
+    byf = {}
+    for b, fld, mode, g, line in sites:
+        byf.setdefault(fld, []).append((b, mode, g, line))
+    n = 0
+    guards = None
+    for fld, ss in byf.items():
+        if len(ss) < 2:
+            continue
+        for b1, m1, g1, l1 in ss:
+            for b2, m2, g2, l2 in ss:
+                if b1 == b2 or not fn.dominates(b1, b2) or m2 != "w":
+                    continue
+                # value(s) read through the first guard
+                fw = fn.forward_locals([g1]) if g1 is not None else set()
+                if not fw:
+                    continue
+                decides = None
+                for sb in fn.blocks():
+                    t = fn.term(sb)
+                    if t[0] != "sw" or not fn.dominates(b1, sb) or not fn.dominates(sb, b2) or sb in (b1, b2):
+                        continue
+                    l = op_local(t[1])
+                    if l is None or l not in fw or fn.ty(l) not in ("bool", "u8", "u32", "u64", "usize", "isize"):
+                        continue
+                    # a discriminant of the lock() Result itself (poison check) is not a decision on protected data
+                    ds = fn.defs(l)
+                    if ds and all(d[1] == "assign" and d[2][2][0] == "disc" for d in ds):
+                        continue
+                    decides = sb
+                if decides is None:
+                    continue
+                if guards is None:
+                    guards = guard_locals(fn)
+                live = guards_live_at(fn, term_loc(fn, b2), guards)
+                still_held = any(f == fld for g, f in live.items() if g != g2)
+                n += 1
+                ok = still_held
+                ctx.obligation(rule, fn.id, "second lock of %s (line %s)" % (fld.rsplit("::", 1)[-1], l2), ok,
+                               sample={"fn": fn.id, "lock": fld, "first_line": l1, "second_line": l2, "first_guard_still_held": still_held})
+                if not ok:
+                    ctx.violation(rule, fn.id, "check under %s, act under a second acquisition" % fld.rsplit("::", 1)[-1],
+                                  "a value read under the guard taken at line %s decides a branch; the guard is released and the branch "
+                                  "takes %s again at line %s to write: two threads can both pass the check before either writes"
+                                  % (l1, fld.rsplit("::", 1)[-1], l2), fn.file, l2)
     return n
